@@ -58,7 +58,7 @@ func (f *fakeAPI) RoundTrip(req *http.Request) (*http.Response, error) {
 	case strings.HasSuffix(path, "/dictionary"):
 		out := []any{}
 		for i, d := range f.s.Dicts {
-			out = append(out, map[string]any{"id": fmt.Sprintf("dict%d", i), "name": d.Name, "write_only": false})
+			out = append(out, map[string]any{"id": fmt.Sprintf("dict%d", i), "name": d.Name, "write_only": d.WriteOnly})
 		}
 		body = out
 	case strings.Contains(path, "/dictionary/") && strings.HasSuffix(path, "/items"):
